@@ -43,6 +43,8 @@ def terms_of(x):
         out += [x.cols[l].t for l in x.labels]
     elif isinstance(x, pdmodel.SeriesCol):
         out.append(x.lane.t)
+    elif isinstance(x, pdmodel.LabeledMat):
+        out += [c.t for row in x.data for c in row if isinstance(c, Sym)]
     elif isinstance(x, (list, tuple)):
         for y in x:
             out += terms_of(y)
@@ -272,6 +274,20 @@ def build(chk):
             kw = {'conditions': {labels[0]: Sym(ir.var('condv'))}} if cond else {}
             return I.call_method(m, 'sample', [Sym(M)], kw)
         seeded_checks(chk, 'GaussianMultivariate' + ('_conditional' if cond else ''), I, mk, call, gm.GM + '.sample')
+    # --- vines: the same @random_state wrapper around a row-by-row sampler (two rows: the loop is unrolled) ------------
+    from . import vine
+    for vt in ('center', 'direct', 'regular'):
+        I = fresh_env()
+        vine.install_contracts(I)
+
+        def mk(I, c, vt=vt):
+            return vine.fit_vine(I, c, 2, vt)
+
+        def call(I, c, m):
+            return I.call_method(m, 'sample', [2])
+        with vine.mode():
+            seeded_checks(chk, 'VineCopula_' + vt, I, mk, call, vine.VINE + '.sample')
+            unseeded_checks(chk, 'VineCopula_' + vt, I, mk, call, vine.VINE + '.sample')
     build_validate(chk)
     build_datasets(chk)
     # canary: a seeded sample must not equal the unseeded one
@@ -280,7 +296,7 @@ def build(chk):
     chk.assumptions += [
         'ghost model of the NumPy legacy generator: global state G, per-object RandomState state, consumers advance G by an '
         'uninterpreted next() - the bit-level generator is not modelled',
-        'vine sampling is covered in C17 (same wrapper, verified here)',
+        'vines: two columns, sample(2) (the row loop unrolled twice); the row sampler for more columns and the loop invariant are in C17',
     ]
     chk.not_addressed += [
         {'clause': 'seeds given as int', 'reason': 'validate_random_state turns an int into RandomState(seed) (proved); from '
